@@ -167,6 +167,9 @@ func runC06(c *harness.Ctx, cc *concCorpus, opsPerG int) {
 		defer runtime.GOMAXPROCS(runtime.GOMAXPROCS(procs))
 	}
 	c.Cover(fmt.Sprintf("gomaxprocs:%d", procs))
+	if procs == 1 || procs == 2 {
+		opsPerG = opsPerG * procs / 4 // the same goroutines on one or two Ps take proportionally longer
+	}
 	var wg sync.WaitGroup
 	var total int64
 	var mu sync.Mutex
